@@ -409,7 +409,8 @@ func c06Other(x *mc.Exec) {
 		case time.Time:
 			return g.(time.Time).Equal(dv)
 		case []byte:
-			return string(g.([]byte)) == string(dv)
+			// a nil byte string re-marshals as null, not as the (possibly empty) string it came from
+			return g.([]byte) != nil && string(g.([]byte)) == string(dv)
 		}
 		return g == den
 	}
@@ -761,7 +762,7 @@ func c06Collection(x *mc.Exec) {
 func init() {
 	Register(&Prop{
 		ID: "C06",
-		Rule: "Engine A, all choices Full: (a) 20 integer kinds x every integer literal in [-70000,70000] (exhaustive for 8/16-bit kinds and their out-of-range neighbourhood) + +-2^k+{-2..2} (k<=70) + +-10^k+{-1,0,1} (k<=21) + fractions/exponents/-0/null/true/false/strings/arrays, each through Attr.UnmarshalToType and through UnmarshalResource (soft and struct-backed); (b) string/bool/time/bytes kinds x alphabet in 3 JSON encodings, RFC3339 offsets x precisions, near-miss invalid times, canonical and non-canonical base64, wrong JSON kinds; (c) whole payloads: 3^5 attribute presence/value combinations x 5 x 4 forms of two to-one relationships x 7 to-many forms x 3 ids x 2 implementations, re-marshaled and re-read; a reduced product (2 attributes) under every iteration order of one member map inside UnmarshalResource (deviation bound 1). (d) collections of 2-3 members over 6 member variants (full, minimal, partial, empty linkage, other type, no id) through UnmarshalCollection and UnmarshalDocument, each member compared with the same object read alone. Oracle: accepted => stored value equals the math/big / own-unescaper / time.Parse / encoding/base64 reading of the literal; non-trivial = literal that is out of range, fractional, of the wrong kind, or a whole payload",
+		Rule: "Engine A, all choices Full: (a) 20 integer kinds x every integer literal in [-70000,70000] (exhaustive for 8/16-bit kinds and their out-of-range neighbourhood) + +-2^k+{-2..2} (k<=70) + +-10^k+{-1,0,1} (k<=21) + fractions/exponents/-0/null/true/false/strings/arrays, each through Attr.UnmarshalToType and through UnmarshalResource (soft and struct-backed); (b) string/bool/time/bytes kinds x alphabet in 3 JSON encodings, RFC3339 offsets x precisions, near-miss invalid times, canonical and non-canonical base64 (a decoded byte string must be non-nil: the empty string is not null), wrong JSON kinds; (c) whole payloads: 3^5 attribute presence/value combinations x 5 x 4 forms of two to-one relationships x 7 to-many forms x 3 ids x 2 implementations, re-marshaled and re-read; a reduced product (2 attributes) under every iteration order of one member map inside UnmarshalResource (deviation bound 1). (d) collections of 2-3 members over 6 member variants (full, minimal, partial, empty linkage, other type, no id) through UnmarshalCollection and UnmarshalDocument, each member compared with the same object read alone. Oracle: accepted => stored value equals the math/big / own-unescaper / time.Parse / encoding/base64 reading of the literal; non-trivial = literal that is out of range, fractional, of the wrong kind, or a whole payload",
 		Assumptions: []string{"no completeness demand: exotic spellings may be rejected; only 'accepted => exact' is judged", "a panic counts as not accepted here (panic freedom is C05)"},
 		Harnesses: []Harness{
 			{Name: "C06/int", Body: c06Int, ShardDepth: 1},
